@@ -390,6 +390,27 @@ def run(repo, rep, tier):
             bool(prune) and \
             all(cfg.dominates(dels[0], p_) for p_, _g in prune)
         cond_ok = bool(prune) and all(g_ for _p, g_ in prune)
+        # one prune per deleted path: every loop around the DeleteInstance
+        # call (a loop over the paths to delete) is also around the prune
+        loops_of = {}
+
+        def nest(stmts, stack):
+            for st_ in stmts:
+                loops_of[st_] = tuple(stack)
+                inner = stack + [st_] if isinstance(
+                    st_, (ast.For, ast.While)) else stack
+                for fld in ('body', 'orelse', 'finalbody'):
+                    sub = getattr(st_, fld, None)
+                    if isinstance(sub, list) and sub and \
+                            isinstance(sub[0], ast.stmt):
+                        nest(sub, inner)
+                for h_ in getattr(st_, 'handlers', []):
+                    nest(h_.body, inner)
+        nest(f.body, [])
+        same_loops = bool(dels) and all(
+            set(loops_of.get(dels[0], ())) <= set(loops_of.get(p_, ()))
+            for p_, _g in prune)
+        cond_ok = cond_ok and same_loops
         r2.ob(ok and cond_ok, rname + ':delete-then-prune',
               {'function': rname, 'delete': norm(dels[0]) if dels else None,
                'prune_guard': '<entry>.path == ' + pvar,
@@ -726,8 +747,17 @@ def recursion_forwards_parameters(repo, rep):
                   'parameter on')
     SMF = 'pywbem/_subscription_manager.py'
     mgr = repo.cls(SMF, 'WBEMSubscriptionManager')
+    n_dispatch = 0
     for f in mgr.methods.values():
         ps = [p for p in f.params if p != 'self']
+        # a method that accepts one item or a list of items (the anchor of
+        # this rule, whether it handles the list by recursion or by a loop)
+        if any(isinstance(t, ast.Call) and dotted(t.func) == 'isinstance' and
+               len(t.args) == 2 and norm(t.args[0]) in ps and
+               'list' in norm(t.args[1]) for t in walk_no_nested(f.node)):
+            n_dispatch += 1
+            r8.sites += 1
+            r8.functions.add(f.fq)
         for c in walk_no_nested(f.node):
             if not (isinstance(c, ast.Call) and
                     dotted(c.func) == 'self.' + f.name):
@@ -757,9 +787,9 @@ def recursion_forwards_parameters(repo, rep):
                             'deleted by remove_server(), and the refusal of '
                             'permanent subscriptions on owned filters / '
                             'destinations is skipped)' % ', '.join(missing))
-    if r8.sites < 3:
-        raise AnalysisError('C18.R8: only %d self-recursive calls found'
-                            % r8.sites)
+    if n_dispatch < 3:
+        raise AnalysisError('C18.R8: only %d item-or-list methods found'
+                            % n_dispatch)
 
 
 def owned_aliases(func, prefix='self._owned_'):
